@@ -240,6 +240,10 @@ impl SnmpSocket for SnmpV3ClientSocket {
         // Serialize BER to buffer
         msg.push_ber(buf)?;
         // Apply auth
+        if !self.auth_key.has_auth() {
+            // Nothing to sign, the bookmark isn't set
+            return Ok(());
+        }
         let offset = buf.get_bookmark();
         self.auth_key.sign(buf.data_mut(), offset)
     }
